@@ -337,6 +337,24 @@ func genC04(g *Gen) {
 	// a run of 150 split over two acquires (60 consumed by the first, which is satisfied before them)
 	add("empties", reader(8, 50, 20, 0, Ls(I(4), Ls(I(0), I(99)), I(4), Ls(I(0), I(99)), I(100)), withLen(mkop(0, 4), mkop(0, 4), mkop(0, 4))))
 
+	// a request that is served exactly from the window must not touch the source: an extra Read would use
+	// up one entry of the run of empty reads that follows (exact-fit boundary of the fast path)
+	for _, k := range []int{0, 1, 10} {
+		for op := 0; op < 4; op++ {
+			for _, run := range []int{99, 100} {
+				var ch VL
+				var ops []V
+				if k > 0 {
+					ch = append(ch, I(k))
+					ops = append(ops, mkop(1, k))
+				}
+				ch = append(ch, Ls(I(0), I(run)), I(50))
+				ops = append(ops, mkop(op, k), mkop(0, 3), mkop(0, 1))
+				add("exactfit", reader(k+op, 40, 20, 0, ch, withLen(ops...)))
+			}
+		}
+	}
+
 	// 5. directed: allocation and growth boundaries (request against cap-ri), with and without unread tail,
 	//    Release with empty / non-empty window, stats-driven allocation after Release, bytes-backed growth
 	for _, a := range []int{0, 1, 2, 100, B - 1} {
